@@ -62,8 +62,8 @@ func (in *Interp) nondetBytes(name string, min, max int64, lenOnly bool, physOve
 	var o *Obj
 	if lenOnly {
 		in.objSeq++
-		o = &Obj{id: in.objSeq, elemT: types.Typ[types.Uint8], lenOnly: true, phys: int(max)}
-		in.nondets = append(in.nondets, nondetRec{Name: name, Kind: "bytes", Len: ln})
+		o = &Obj{id: in.objSeq, elemT: types.Typ[types.Uint8], lenOnly: true, phys: int(max), loCells: map[uint64]*Term{}, loName: fmt.Sprintf("%s#%d", name, seq)}
+		in.nondets = append(in.nondets, nondetRec{Name: name, Kind: "bytes", Len: ln, LO: o})
 		return o, ln
 	}
 	o = in.newObj(types.Typ[types.Uint8], int(max))
@@ -1030,6 +1030,9 @@ func (in *Interp) prelude(fn *ssa.Function, name string, args []Value) (Value, b
 		}
 		p := a0.(Pointer)
 		return ts.Bool(in.lockHeld[p.P]), true
+	case "zzChanClosed":
+		ch, _ := args[0].(*ChanV)
+		return ts.Bool(ch != nil && ch.closed), true
 	case "zzEventCountIs":
 		want := in.cstr(args[0])
 		n := 0
